@@ -49,10 +49,12 @@ fn pem_wrap(label: &str, der: &[u8]) -> String {
     format!("-----BEGIN {l}-----\n{}\n-----END {l}-----\n", lines.join("\n"), l = label)
 }
 
-fn make_pair(id: &'static str, expired: bool) -> Pair {
+/// expired: 0 = valid, 1 = expired for years, 2 = expired an hour ago
+fn make_pair(id: &'static str, expired: u8) -> Pair {
     let mut params = rcgen::CertificateParams::new(vec!["localhost".to_string()]).unwrap();
     params.distinguished_name.push(rcgen::DnType::CommonName, format!("verif-{}", id));
-    if expired { params.not_before = rcgen::date_time_ymd(2001, 1, 1); params.not_after = rcgen::date_time_ymd(2002, 1, 1); }
+    if expired == 1 { params.not_before = rcgen::date_time_ymd(2001, 1, 1); params.not_after = rcgen::date_time_ymd(2002, 1, 1); }
+    if expired == 2 { let now = time::OffsetDateTime::now_utc(); params.not_before = now - time::Duration::days(30); params.not_after = now - time::Duration::hours(1); }
     let key = rcgen::KeyPair::generate().unwrap();
     let cert = params.self_signed(&key).unwrap();
     let cert_pem = cert.pem();
@@ -94,6 +96,20 @@ async fn handshake(rel: &CertReloader) -> Option<(Vec<u8>, TlsPair)> {
     match (cli, srv) { (Ok(c), Ok(s)) => { let leaf = rec.leaf.lock().unwrap().clone()?; Some((leaf, (c, s))) } _ => None }
 }
 
+/// One handshake over TCP against a running Server that shares the reloader's acceptor cell.
+async fn handshake_tcp(addr: &str) -> Option<Vec<u8>> {
+    let provider = Arc::new(rustls::crypto::aws_lc_rs::default_provider());
+    let rec = Arc::new(Recorder { leaf: Mutex::new(None), provider: provider.clone() });
+    let cfg = rustls::ClientConfig::builder_with_provider(provider).with_safe_default_protocol_versions().ok()?
+        .dangerous().with_custom_certificate_verifier(rec.clone()).with_no_client_auth();
+    let connector = tokio_rustls::TlsConnector::from(Arc::new(cfg));
+    let tcp = tokio::net::TcpStream::connect(addr).await.ok()?;
+    let r = tokio::time::timeout(std::time::Duration::from_secs(3), connector.connect(ServerName::try_from("localhost").unwrap(), tcp)).await.ok()?;
+    r.ok()?;
+    let leaf = rec.leaf.lock().unwrap().clone();
+    leaf
+}
+
 async fn ping(p: &mut TlsPair) -> bool {
     let (c, s) = p;
     if c.write_all(b"ping").await.is_err() || c.flush().await.is_err() { return false; }
@@ -118,9 +134,18 @@ async fn run_history(log: &Log, r: &mut Rng, pairs: &[Pair], sc: &Value, check_e
     let cfg = CertReloaderConfig { cert_path: cp.clone(), key_path: kp.clone(), watch_enabled: false, debounce_ms: 10, check_expiry, expiry_warning_days: 30 };
     let Ok(rel) = CertReloader::new(cfg) else { return };
     let Some((_, mut old)) = handshake(&rel).await else { return };
-    let idof = |der: &[u8]| pairs.iter().find(|p| p.der == der).map(|p| p.id).unwrap_or("unknown");
-    let idser = |s: &str| pairs.iter().find(|p| p.serial == s).map(|p| p.id).unwrap_or("unknown");
+    // the consumer side: a running server that takes its acceptor from the reloader's shared cell
+    let server = Arc::new(anytls_rs::server::Server::new_with_reloadable_tls("pw", rel.get_acceptor_ref(), anytls_rs::padding::PaddingFactory::default(), None));
+    let saddr = format!("127.0.0.1:{}", crate::net::free_port());
+    let (s2, a2) = (server.clone(), saddr.clone());
+    let listen = tokio::spawn(async move { let _ = s2.listen(&a2).await; });
+    crate::net::wait_listening(&saddr).await;
+    let abs = |id: &'static str| if id == "C1" { "C" } else { id };
+    let idof = |der: &[u8]| pairs.iter().find(|p| p.der == der).map(|p| abs(p.id)).unwrap_or("unknown");
+    let idser = |s: &str| pairs.iter().find(|p| p.serial == s).map(|p| abs(p.id)).unwrap_or("unknown");
     let mut last = rel.get_last_reload();
+    // which expired certificate stands for "C" in this history
+    let cvar: &str = if r.chance(1, 2) { "C1" } else { "C" };
     for st in sc.get("steps").and_then(|x| x.as_array()).cloned().unwrap_or_default() {
         let a = st.get("a").and_then(|x| x.as_str()).unwrap_or("");
         if a == "reload" {
@@ -133,7 +158,8 @@ async fn run_history(log: &Log, r: &mut Rng, pairs: &[Pair], sc: &Value, check_e
             let content: Option<String> = match id.as_str() {
                 "missing" => None,
                 "garbage" => Some((*r.pick(&["", "not a pem file\n", "-----BEGIN CERTIFICATE-----\n!!!!\n-----END CERTIFICATE-----\n", "\u{0}\u{1}\u{2}binary"])).to_string()),
-                x => { let p = pairs.iter().find(|p| p.id == x).unwrap();
+                x => { let x = if x == "C" { cvar } else { x };
+                       let p = pairs.iter().find(|p| p.id == x).unwrap();
                        // the key is stored in PKCS#8 or in the traditional SEC1 encoding
                        let pem = if a == "cert" { &p.cert_pem } else if r.chance(1, 2) { &p.key_pem_sec1 } else { &p.key_pem };
                        Some(if whole { pem.clone() } else { truncated(r, pem) }) }
@@ -143,13 +169,15 @@ async fn run_history(log: &Log, r: &mut Rng, pairs: &[Pair], sc: &Value, check_e
         }
         // observe
         let hs = handshake(&rel).await;
+        let srv = handshake_tcp(&saddr).await;
         let info = rel.get_cert_info().map(|i| idser(&i.serial_number).to_string()).unwrap_or("none".into());
         let now_last = rel.get_last_reload();
         let changed = now_last != last; last = now_last;
         let oldok = ping(&mut old).await;
-        ev.push(json!({"ev": "obs", "hs": hs.is_some(), "leaf": hs.as_ref().map(|h| idof(&h.0)).unwrap_or("none"), "info": info,
+        ev.push(json!({"ev": "obs", "hs": hs.is_some(), "leaf": hs.as_ref().map(|h| idof(&h.0)).unwrap_or("none"), "srv": srv.as_ref().map(|d| idof(d)).unwrap_or("none"), "info": info,
                        "count": rel.get_reload_count(), "lastchanged": changed, "old": oldok}));
     }
+    listen.abort();
     ev.push(json!({"ev": "end", "panics": 0}));
     let mut d = json!({"kind": "history", "abstract": sc});
     d["consts"] = json!({"checkExpiry": check_expiry});
@@ -164,7 +192,8 @@ pub fn run(args: &Args, log: &Log) -> Result<(), String> {
     let _ = rustls::crypto::aws_lc_rs::default_provider().install_default();
     let mut r = Rng::new(args.seed);
     let scs = super::read_scenarios(&args.scenarios);
-    let pairs = vec![make_pair("A", false), make_pair("B", false), make_pair("C", true)];
+    // "C" of the abstract alphabet (an expired certificate) is concretised as C (expired for years) or C1 (expired an hour ago)
+    let pairs = vec![make_pair("A", 0), make_pair("B", 0), make_pair("C", 1), make_pair("C1", 2)];
     let dir = tempfile::tempdir().map_err(|e| e.to_string())?;
     let rt = tokio::runtime::Builder::new_current_thread().enable_all().build().unwrap();
     rt.block_on(async {
